@@ -224,6 +224,29 @@ def gen(rng):
     return mg.gen_definition(rng, max_states=4, max_events=4, max_trans=2, min_events=1)
 
 
+def grown(d, rng_seed):
+    """the definition with one more process (a saturating death on state 0 at a rate using the first parameter)"""
+    d2 = json.loads(json.dumps(d))
+    p = d["params"][rng_seed % len(d["params"])]
+    s0 = d["states"][0]
+    d2["events"].append(dict(rate="%s*%s*%s/(1+%s)" % (p, s0, s0, s0), kind="saturating", trans=[dict(ty="D", o=0, d=None, mag="2")]))
+    return d2
+
+
+def after_growth(d, route, seed, pt):
+    """the derivative functions are those of the model AS IT NOW IS: evaluate them, add a process to the live model, evaluate
+    them again -> (cls, what) or None"""
+    import pg
+    m, order = mg.build(d, route=route, rng=np.random.default_rng(seed))
+    pyg_derivs(m, pt)                               # builds (and lets pygom keep) every symbolic derivative object
+    compare(d, order, pyg_derivs(m, pt), pt, m)     # ... and compiles the numeric evaluators
+    d2 = grown(d, seed)
+    e = d2["events"][-1]
+    m.add_event(pg.Event(rate=e["rate"], transition_list=[pg.Transition(origin=d["states"][0], transition_type="D", magnitude="2")]))
+    f = compare(d2, list(order) + [len(d["events"])], pyg_derivs(m, pt), pt, m)
+    return ("after-add_event/" + f[0], "after a process was added to the live model: " + f[1]) if f else None
+
+
 def run(ck):
     ck.rule = ("random model definitions as in C01 (1-4 states, 1-5 parameters, 1-4 events, all rate kinds incl. exponential and "
                "time-periodic, optional ODE terms) at exact rational points away from singularities; non-trivial = nS != nP and "
@@ -255,6 +278,14 @@ def run(ck):
         dist["nS=%d,nP=%d" % (len(d["states"]), len(d["params"]))] = dist.get("nS=%d,nP=%d" % (len(d["states"]), len(d["params"])), 0) + 1
         if f:
             ck.violation(f[0], f[1], dict(inp, point={k2: str(v) for k2, v in pt.items()} if pv else None))
+        elif pv is not None and k % 4 == 0:
+            try:
+                g = after_growth(d, route, k, pt)
+            except Exception as e:
+                g = ("after-add_event/error", "%s: %s" % (type(e).__name__, str(e)[:200]))
+            dist["sequence:after-add_event"] = dist.get("sequence:after-add_event", 0) + 1
+            if g:
+                ck.violation(g[0], g[1], dict(inp, grown=True, point={k2: str(v) for k2, v in pt.items()}))
         if pv is not None:
             try:
                 cases.append((coq_case(d, order, pv, pt), inp))
@@ -289,5 +320,8 @@ def replay(ck, data):
         pt = {k: Fraction(v) for k, v in inp["point"].items()}
     else:
         pt = mg.random_point(np.random.default_rng(0), d)
+    if inp.get("grown"):
+        g = after_growth(d, inp.get("route", "event"), inp.get("seed", 0), pt)
+        return g[1] if g else None
     f = compare(d, order, pyg_derivs(m, pt), pt, m)
     return f[1] if f else None
